@@ -19,6 +19,8 @@ type Universe struct {
 	fresh     int
 	// assumptions/abstractions actually used, for evidence
 	notes     map[string]bool
+	viaPointer bool
+	curKey    string
 	strLits   []string
 	sentinels []string
 }
@@ -59,6 +61,14 @@ func (u *Universe) define(hint string, t Term) Term {
 	return Term{n, t.Sort}
 }
 
+// defineConst names a term with a declared constant plus a defining equation; unlike
+// define (a macro) the name stays a symbol inside quantifier patterns.
+func (u *Universe) defineConst(hint string, t Term) Term {
+	n := u.freshName(hint)
+	u.decls = append(u.decls, fmt.Sprintf("(declare-const %s %s)\n(assert (= %s %s))", n, t.Sort.Name, n, t.S))
+	return Term{n, t.Sort}
+}
+
 type unsupported struct{ msg string }
 
 func (e unsupported) Error() string { return e.msg }
@@ -96,12 +106,23 @@ func (u *Universe) sortOf(t types.Type) *Sort {
 	t = types.Unalias(t)
 	key := types.TypeString(t, nil)
 	if s, ok := u.sortCache[key]; ok {
+		if s != nil && s.building && !u.viaPointer {
+			return nil // recursive type through a value path: not modelled
+		}
+		return s
+	}
+	switch t.(type) {
+	case *types.Pointer, *types.Slice, *types.Map:
+		// cheap wrappers: recursion is cut at the struct they (transitively) refer to
+		s := u.sortOf1(t, key)
+		u.sortCache[key] = s
 		return s
 	}
 	if u.inProg[key] {
-		return nil // recursive type through a value path: not modelled
+		return nil
 	}
 	u.inProg[key] = true
+	u.curKey = key
 	s := u.sortOf1(t, key)
 	delete(u.inProg, key)
 	u.sortCache[key] = s
@@ -163,7 +184,7 @@ func (u *Universe) sortOf1(t types.Type, key string) *Sort {
 					name += "_" + sanitize(as.Name)
 				}
 			}
-			return u.structSort(name, ut)
+			return u.structSort(name, ut, key)
 		case *types.Interface:
 			return &Sort{Name: "Int", Kind: KOpaque} // interface values: opaque ints
 		default:
@@ -171,9 +192,12 @@ func (u *Universe) sortOf1(t types.Type, key string) *Sort {
 		}
 	case *types.Struct:
 		u.anon++
-		return u.structSort(fmt.Sprintf("S_anon%d", u.anon), t)
+		return u.structSort(fmt.Sprintf("S_anon%d", u.anon), t, key)
 	case *types.Pointer:
+		saved := u.viaPointer
+		u.viaPointer = true
 		es := u.sortOf(t.Elem())
+		u.viaPointer = saved
 		if es == nil {
 			return nil
 		}
@@ -217,8 +241,15 @@ func (u *Universe) sliceSort(es *Sort) *Sort {
 	return s
 }
 
-func (u *Universe) structSort(name string, st *types.Struct) *Sort {
-	s := &Sort{Name: name, Kind: KStruct}
+func (u *Universe) structSort(name string, st *types.Struct, key string) *Sort {
+	s := &Sort{Name: name, Kind: KStruct, building: true}
+	// register early so that pointers back to this struct resolve to the same sort
+	if key != "" {
+		u.sortCache[key] = s
+	}
+	savedVP := u.viaPointer
+	u.viaPointer = false
+	defer func() { s.building = false; u.viaPointer = savedVP }()
 	for i := 0; i < st.NumFields(); i++ {
 		f := st.Field(i)
 		if f.Name() == "_" {
